@@ -16,7 +16,7 @@ from gvsim.lib import ACTIONS
 
 PROP = 'C20'
 TIERS = {'quick': {'runs': 1200, 'wall': 100}, 'thorough': {'runs': 30000, 'wall': 1500}}
-REACH = ['representation_switch', 'representation_switch_via_wrapper', 'wrapper_op', 'representation_switch_mid_episode']  # probes / faults that must fire in every batch (reach gaps are reported in the evidence)
+REACH = ['representation_switch', 'representation_switch_via_wrapper', 'wrapper_op', 'representation_switch_mid_episode', 'observation_area_off_bottom_centre']  # probes / faults that must fire in every batch (reach gaps are reported in the evidence)
 RULE = ('one run = 1-2 gym-level clients (every shipped configuration, built directly, through gym.make(id).unwrapped '
         'and through the registry spec\'s factory; with and without GymStateWrapper) under a seeded op list of reset / '
         'step(index) / representation switches at arbitrary points / space reads, interleaved with adversary noise on '
@@ -161,6 +161,15 @@ class GymClient:
                 elif name in ('rooms', 'memory_rooms'):
                     rf['shape'] = rr.choice([[hh, ww + rr.choice([3, 4])], [hh + 2, ww]])
                 self.data['reset_function'] = rf
+            of = dict(self.data.get('observation_function') or {})
+            if 'area' in of and rr.random() < 0.5:
+                # a view that does not put the agent on its bottom-centre cell (every shipped view does)
+                vh, vw = rr.randint(1, 8), rr.choice([1, 3, 5, 7, 9])  # observation spaces need an odd width
+                ymax = 0 if of.get('name') == 'partially_occluded' else rr.randint(0, vh - 1)
+                xmin = -rr.randint(0, vw - 1)
+                of['area'] = [[ymax - vh + 1, ymax], [xmin, xmin + vw - 1]]
+                self.data['observation_function'] = of
+                self.varied_area = True
             import copy as _copy
 
             inner = factory_env_from_data(_copy.deepcopy(self.data))
@@ -212,6 +221,9 @@ class Runner:
         self.ctx.violate('gym', code, site, cause, self.op_index, detail)
 
     def run(self):
+        for c in self.clients:
+            if getattr(c, 'varied_area', False):
+                self.ctx.probe('observation_area_off_bottom_centre')
         for i, op in enumerate(self.rec['ops']):
             self.op_index = i
             self.ctx.ticks += 1
